@@ -17,6 +17,14 @@ BUILD = os.path.join(ROOT, ".build")
 SCRATCH = os.path.join(ROOT, ".scratch")
 EVIDENCE = os.path.join(ROOT, "evidence")
 REPLAYS = os.path.join(ROOT, "replays")
+# VERIF_REPO (seed experiments only, never set by a registered command): check another working tree of the
+# repository; the harness is built from a scratch copy pointing at it and evidence/replays go to a side directory
+ALT = REPO != "/repo"
+if ALT:
+    import hashlib
+    _tag = hashlib.sha1(REPO.encode()).hexdigest()[:10]
+    EVIDENCE = os.path.join(ROOT, ".scratch", "alt_" + _tag, "evidence")
+    REPLAYS = os.path.join(ROOT, ".scratch", "alt_" + _tag, "replays")
 KNOWN = os.path.join(ROOT, "known_findings.json")
 TLA_CP = "/opt/veriftools/tla/tla2tools.jar:/opt/veriftools/tla/CommunityModules-deps.jar"
 NCPU = os.cpu_count() or 4
@@ -45,11 +53,19 @@ def build_harness(tags="verif"):
         return _built[tags]
     os.makedirs(BUILD, exist_ok=True)
     out = os.path.join(BUILD, "lhverif")
+    src = HARNESS
+    if ALT:
+        src = os.path.join(ROOT, ".scratch", "alt_" + _tag, "harness")
+        shutil.rmtree(src, ignore_errors=True)
+        shutil.copytree(HARNESS, src)
+        gm = open(os.path.join(src, "go.mod")).read().replace("=> /repo", "=> " + REPO)
+        open(os.path.join(src, "go.mod"), "w").write(gm)
+        out = os.path.join(BUILD, "lhverif_" + _tag)
     gosum_src = os.path.join(REPO, "go.sum")
     if os.path.exists(gosum_src):
-        shutil.copyfile(gosum_src, os.path.join(HARNESS, "go.sum"))
+        shutil.copyfile(gosum_src, os.path.join(src, "go.sum"))
     t0 = time.time()
-    p = subprocess.run(["go", "build", "-tags", tags, "-o", out, "./cmd/lhverif"], cwd=HARNESS, env=goenv(),
+    p = subprocess.run(["go", "build", "-tags", tags, "-o", out, "./cmd/lhverif"], cwd=src, env=goenv(),
                        stdout=subprocess.PIPE, stderr=subprocess.STDOUT, text=True)
     if p.returncode != 0:
         raise Inconclusive("harness build failed against %s:\n%s" % (REPO, p.stdout[-4000:]))
